@@ -393,3 +393,38 @@ Proof.
   - apply independent_b_spec. vm_compute. reflexivity.
   - apply connected_b_spec; [apply grid_wf|]. vm_compute. reflexivity.
 Qed.
+
+(* ------------------------------------------------------------------------ *)
+(* on well-formed input nothing is raised (the hypotheses "... = (st', None)"
+   of the exactness theorems are met)                                        *)
+
+Theorem not_segmenting_graph_succeeds st l g :
+  wf_graph g = true -> 1 <= nv g -> length l = nv g ->
+  (forall a, In a l -> is_bool_expr_like a = true) ->
+  exists st', post_not_segmenting false st (AArr1 l) (Some g) = (st', None).
+Proof.
+  intros Hwf Hn Hlen Hbool.
+  assert (Hedges : forall a b, In (a, b) (edges g) -> a < length l /\ b < length l).
+  { intros a b Hin. destruct (In_nth_error _ _ Hin) as [k Hk]. rewrite Hlen. apply (wf_graph_edge g k a b Hwf Hk). }
+  destruct (not_adjacent_graph_exact st l g true Hedges Hbool) as [st1 [Hna _]].
+  destruct (post_avc_succeeds st1 (invert1 l) g false Hwf Hn) as [st2 H2].
+  - unfold invert1. rewrite map_length. lia.
+  - apply invert1_bool.
+  - exists st2. rewrite post_nseg_graph_unfold, Hna, H2. reflexivity.
+Qed.
+
+Theorem not_segmenting_line_succeeds st h w l :
+  h = 1 \/ w = 1 -> 1 <= h * w -> length l = h * w ->
+  exists st', post_not_segmenting false st (AArr2 h w l) None = (st', None).
+Proof.
+  intros Hline Hn Hlen.
+  destruct (not_adjacent_grid_exact st h w l Hlen) as [st1 [Hna _]].
+  destruct (post_avc_succeeds st1 (invert1 l) (grid_graph h w) false (grid_wf h w)) as [st2 H2].
+  - exact Hn.
+  - unfold invert1. rewrite map_length. simpl. lia.
+  - apply invert1_bool.
+  - exists st2. rewrite post_nseg_grid_unfold, Hna.
+    assert (Hsel : Nat.eqb h 1 || Nat.eqb w 1 = true).
+    { destruct Hline as [-> | ->]; [reflexivity|apply orb_true_r]. }
+    rewrite Hsel, H2. reflexivity.
+Qed.
